@@ -127,7 +127,64 @@ func GenCase(t *rapid.T, withFaults bool) *Case {
 			c.InitScrapes = append(c.InitScrapes, rapid.IntRange(0, 4).Draw(t, fmt.Sprintf("s%d-initScrapes", i)))
 		}
 	}
-	// prefix
+	// prefix, style "rounds": the system runs normally (cycle; scrape-all) while workload edits and
+	// faults are interspersed, so that moves (which need 3 scrapes on both sides) really happen
+	// inside the prefix and armed faults meet protocol steps
+	if rapid.IntRange(0, 9).Draw(t, "prefixStyle") < 6 {
+		nextHash := uint64(nT + 1)
+		faults := 0
+		if rapid.IntRange(0, 3).Draw(t, "warmup") != 0 {
+			c.Prefix = append(c.Prefix, Action{Kind: "scrapeAll"}, Action{Kind: "scrapeAll"}, Action{Kind: "scrapeAll"})
+		}
+		nR := rapid.IntRange(2, 9).Draw(t, "nRounds")
+		for r := 0; r < nR; r++ {
+			l := fmt.Sprintf("r%d", r)
+			if withFaults && faults < 4 && rapid.IntRange(0, 2).Draw(t, l+"-faultOn") == 0 {
+				faults++
+				sh := rapid.IntRange(0, 4).Draw(t, l+"-shard")
+				switch pick(t, l+"-fault", 5, 3, 3, 2, 2, 2, 2) {
+				case 0:
+					c.Prefix = append(c.Prefix, Action{Kind: "dropPost", Shard: sh, Match: rapid.SampledFrom([]string{"any", "add", "transfer", "transfer"}).Draw(t, l+"-match")})
+				case 1:
+					c.Prefix = append(c.Prefix, Action{Kind: "loseReply", Shard: sh, Match: rapid.SampledFrom([]string{"any", "add", "transfer"}).Draw(t, l+"-match")})
+				case 2:
+					c.Prefix = append(c.Prefix, Action{Kind: "restart", Shard: sh})
+				case 3:
+					c.Prefix = append(c.Prefix, Action{Kind: "unready", Shard: sh, K: rapid.IntRange(1, 3).Draw(t, l+"-k")})
+				case 4:
+					c.Prefix = append(c.Prefix, Action{Kind: "getFail", Shard: sh, K: rapid.IntRange(1, 3).Draw(t, l+"-k")})
+				case 5:
+					c.Prefix = append(c.Prefix, Action{Kind: "outOfSync", Shard: sh, K: rapid.IntRange(0, 3).Draw(t, l+"-k")})
+				default:
+					c.Prefix = append(c.Prefix, Action{Kind: "killTail"})
+				}
+			}
+			switch pick(t, l+"-edit", 70, 12, 8, 5, 5) {
+			case 1:
+				h := uint64(rapid.IntRange(1, nT).Draw(t, l+"-hash"))
+				sr, tot := genSize(t, c, l, false)
+				c.Prefix = append(c.Prefix, Action{Kind: "grow", Hash: h, Series: sr, Total: tot})
+			case 2:
+				sr, tot := genSize(t, c, l, true)
+				c.Prefix = append(c.Prefix, Action{Kind: "add", Hash: nextHash, Series: sr, Total: tot, Job: "j1"})
+				nextHash++
+				c.Max++
+			case 3:
+				c.Prefix = append(c.Prefix, Action{Kind: "remove", Hash: uint64(rapid.IntRange(1, nT).Draw(t, l+"-hash"))})
+			case 4:
+				c.Prefix = append(c.Prefix, Action{Kind: "health", Hash: uint64(rapid.IntRange(1, nT).Draw(t, l+"-hash")), K: rapid.IntRange(0, 1).Draw(t, l+"-up")})
+			}
+			c.Prefix = append(c.Prefix, Action{Kind: "cycle"})
+			if rapid.IntRange(0, 4).Draw(t, l+"-scrape") != 0 {
+				c.Prefix = append(c.Prefix, Action{Kind: "scrapeAll"})
+			} else {
+				c.Prefix = append(c.Prefix, Action{Kind: "scrape", Shard: rapid.IntRange(0, 5).Draw(t, l+"-sshard")})
+			}
+		}
+		c.RandSeed = int64(rapid.IntRange(1, 1<<30).Draw(t, "randSeed"))
+		return c
+	}
+	// prefix, style "soup": any interleaving of single actions
 	nA := rapid.IntRange(0, 14).Draw(t, "nActions")
 	faults := 0
 	nextHash := uint64(nT + 1)
